@@ -52,8 +52,9 @@ class _St:
 class _Method:
     """Abstract interpretation of one method body for one abstract pre-state."""
 
-    def __init__(self, fn: ast.FunctionDef, pre: tuple[bool, bool], load_table: dict | None) -> None:
+    def __init__(self, fn: ast.FunctionDef, pre: tuple[bool, bool], load_table: dict | None, load_raise: dict | None = None) -> None:
         self.fn, self.pre, self.load_table = fn, pre, load_table
+        self.load_raise = load_raise
         args = [a.arg for a in fn.args.posonlyargs + fn.args.args + fn.args.kwonlyargs]
         if not args or args[0] != 'self':
             _err(fn, f'{fn.name}: first parameter is not self')
@@ -244,7 +245,86 @@ class _Method:
                 return True
         return False
 
+    # ---- exits by exception
+    @staticmethod
+    def _own_exprs(s: ast.stmt) -> list[ast.AST]:
+        """the expressions a statement evaluates itself (not the statements nested in it)"""
+        if isinstance(s, ast.If):
+            return [s.test]
+        if isinstance(s, (ast.For, ast.While, ast.With, ast.Try)):
+            return [s]              # never touches the slots (checked by run): any call inside may raise, the state is the one before
+        return [s]
+
+    def _is_self_load(self, c: ast.Call) -> bool:
+        f = c.func
+        return (isinstance(f, ast.Attribute) and f.attr == 'load' and isinstance(f.value, ast.Name) and f.value.id == 'self'
+                and not c.args and not c.keywords)
+
+    @staticmethod
+    def _cannot_raise(c: ast.Call) -> bool:
+        """calls that do not raise whatever they are given"""
+        f = c.func
+        if isinstance(f, ast.Name) and f.id == 'isinstance' and len(c.args) == 2:
+            return True
+        if isinstance(f, ast.Name) and f.id == 'getattr' and len(c.args) == 3:
+            return True
+        return False
+
+    @staticmethod
+    def _typed_bytes(v: ast.expr) -> bool:
+        """an expression whose elements are known to be integers in 0..255"""
+        if isinstance(v, ast.Call) and isinstance(v.func, ast.Name) and v.func.id == 'array' and v.args \
+                and isinstance(v.args[0], ast.Constant) and v.args[0].value == 'B':
+            return True
+        if isinstance(v, ast.Subscript) and isinstance(v.slice, ast.Slice) and _is_slot(v.value, None, '_data'):
+            return True
+        return False
+
+    def raise_exits(self, s: ast.stmt, st: _St) -> list[tuple[str, _St]]:
+        """The states in which statement `s` can be left by an exception, BEFORE it has any effect of its own: one exit
+        per explicit `raise`, `assert`, import and per call that can raise; `self.load()` contributes the exits of load()."""
+        if isinstance(s, ast.Raise):
+            return []               # run() ends the path there
+        out: list[tuple[str, _St]] = []
+        if isinstance(s, (ast.Assert, ast.Import, ast.ImportFrom)):
+            out.append(('raise', st.copy()))
+        if isinstance(s, ast.Assign):
+            # several elements of the pixel array stored by one statement (`[d[o], d[o + 1], ...] = value`): an array('B')
+            # rejects an element that is not an integer in 0..255, so the statement can raise after the first elements
+            # were stored - unless the value is itself an array('B') (already validated) or a slice of a pixel array
+            for t in s.targets:
+                if isinstance(t, (ast.Tuple, ast.List)):
+                    elems = [e for e in t.elts if isinstance(e, ast.Subscript) and _is_slot(e.value, 'self', '_data')]
+                    if len(elems) > 1 and not self._typed_bytes(s.value):
+                        st2 = st.copy()
+                        st2.mod = True
+                        out.append(('raise', st2))
+        for e in self._own_exprs(s):
+            for c in ast.walk(e):
+                if not isinstance(c, ast.Call) or self._cannot_raise(c):
+                    continue
+                if self._is_self_load(c):
+                    if self.load_raise is None:
+                        _err(c, f'{self.fn.name}: recursive self.load()')
+                    d, sr = not self.data_is_none(st), not self.src_is_none(st)
+                    for od, om, os_ in self.load_raise[(d, sr)]:
+                        st2 = st.copy()
+                        if od not in ('Keep', 'None') or (od == 'None' and d):
+                            st2.data, st2.mod = od, om
+                        if os_ not in ('Keep', 'None') or (os_ == 'None' and sr):
+                            st2.src = os_
+                        out.append(('raise', st2))
+                else:
+                    out.append(('raise', st.copy()))
+        return out
+
     def run(self, stmts: list[ast.stmt], st: _St) -> list[tuple[str, _St]]:
+        if not stmts:
+            return [('fall', st)]
+        pre = self.raise_exits(stmts[0], st)
+        return pre + self.run1(stmts, st)
+
+    def run1(self, stmts: list[ast.stmt], st: _St) -> list[tuple[str, _St]]:
         """-> [(how the path ends: 'fall' | 'return' | 'raise', state)]"""
         if not stmts:
             return [('fall', st)]
@@ -312,31 +392,35 @@ def _touching_methods(cls: ast.ClassDef) -> list[ast.FunctionDef]:
     return out
 
 
-def _table(fn: ast.FunctionDef, load_table: dict | None) -> tuple[dict, bool, bool]:
-    """-> ({(d, s): sorted outcomes}, reads a parameter frame's pixels before loading it, some path raises)"""
+def _table(fn: ast.FunctionDef, load_table: dict | None, load_raise: dict | None = None) -> tuple[dict, bool, dict]:
+    """-> ({(d, s): sorted outcomes of the paths that return}, reads a parameter frame's pixels before loading it,
+           {(d, s): sorted outcomes at the exits by exception})
+    For load() itself (load_table None) the exits of load are computed directly; every other method inlines them at self.load()."""
     table: dict[tuple[bool, bool], list[tuple[str, bool, str]]] = {}
+    rtable: dict[tuple[bool, bool], list[tuple[str, bool, str]]] = {}
     unloaded = False
-    raises = False
     for d in (False, True):
         for s in (False, True):
-            m = _Method(fn, (d, s), load_table)
+            m = _Method(fn, (d, s), load_table, load_raise)
             outs = set()
+            routs = set()
             for how, st in m.run(list(fn.body), _St()):
                 unloaded = unloaded or st.unloaded_read
-                if how == 'raise':
-                    raises = True
-                    continue
                 dd = st.data
                 if dd == 'Keep' and not d:
                     dd = 'None'
                 ss = st.src
                 if ss == 'Keep' and not s:
                     ss = 'None'
+                if how == 'raise':
+                    routs.add((dd, bool(st.mod) and dd != 'None', ss))
+                    continue
                 if dd == 'File' and not s:
                     _err(fn, f'{fn.name}: decodes a file source that is absent')
                 outs.add((dd, bool(st.mod) and dd != 'None', ss))
             table[(d, s)] = sorted(outs)
-    return table, unloaded, raises
+            rtable[(d, s)] = sorted(routs)
+    return table, unloaded, rtable
 
 
 def _table_coq(t: dict) -> str:
@@ -394,6 +478,84 @@ def _external_stores(tree: ast.Module) -> list[tuple[str, str, str]]:
                 if isinstance(n, ast.Call) and ast.unparse(n.func) in ('setattr', 'object.__setattr__'):
                     if any(isinstance(a, ast.Constant) and a.value in SLOTS for a in n.args):
                         out.append((fn.name, 'setattr', 'set'))
+    return sorted(set(out))
+
+
+MUTATING_CALLS = {'pop', 'popitem', 'clear', 'update', 'setdefault', 'append', 'extend', 'insert', 'remove', 'sort', 'reverse', 'add', 'discard',
+                  '__setitem__', '__delitem__', '__setattr__', '__delattr__'}
+
+
+def _vtf_self_stores(vtf: ast.ClassDef) -> list[tuple[str, str]]:
+    """Every place where a method of class VTF other than __init__ changes the object itself: (method, attribute) for
+    `self.<a> = / += / del`, `self.<a>[...] = / del`, a mutating method called on `self.<a>`, setattr(self, ...).
+    (Frames are changed through their own methods and the two external stores of the census above.)"""
+    out = []
+    # attributes that hold a Frame (assigned `Frame(...)` in __init__): calling a method on them is a Frame method call, covered by the
+    # effect tables and exits of class Frame
+    frame_attrs = set()
+    for fn in vtf.body:
+        if isinstance(fn, ast.FunctionDef) and fn.name == '__init__':
+            for n in ast.walk(fn):
+                if isinstance(n, ast.Assign) and isinstance(n.value, ast.Call) and ast.unparse(n.value.func) == 'Frame':
+                    for t in n.targets:
+                        if isinstance(t, ast.Attribute) and isinstance(t.value, ast.Name) and t.value.id == 'self':
+                            frame_attrs.add(t.attr)
+    for fn in vtf.body:
+        if not isinstance(fn, (ast.FunctionDef, ast.AsyncFunctionDef)) or fn.name == '__init__':
+            continue
+        args = [a.arg for a in fn.args.posonlyargs + fn.args.args]
+        if not args or any(isinstance(d, ast.Name) and d.id in ('classmethod', 'staticmethod') for d in fn.decorator_list):
+            continue
+        me = args[0]
+
+        def own(node) -> str | None:
+            """`self.<a>` or `self.<a>[...]` -> a"""
+            if isinstance(node, ast.Subscript):
+                node = node.value
+            if isinstance(node, ast.Attribute) and isinstance(node.value, ast.Name) and node.value.id == me:
+                return node.attr
+            return None
+        for n in ast.walk(fn):
+            tgts = []
+            if isinstance(n, ast.Assign):
+                tgts = list(n.targets)
+            elif isinstance(n, (ast.AugAssign, ast.AnnAssign)):
+                tgts = [n.target] if getattr(n, 'value', True) is not None else []
+            elif isinstance(n, ast.Delete):
+                tgts = list(n.targets)
+            elif isinstance(n, (ast.For, ast.AsyncFor)):
+                tgts = [n.target]
+            elif isinstance(n, (ast.With, ast.AsyncWith)):
+                tgts = [i.optional_vars for i in n.items if i.optional_vars is not None]
+            elif isinstance(n, ast.NamedExpr):
+                tgts = [n.target]
+            flat = []
+            while tgts:
+                t = tgts.pop()
+                if isinstance(t, (ast.Tuple, ast.List)):
+                    tgts += t.elts
+                elif isinstance(t, ast.Starred):
+                    tgts.append(t.value)
+                else:
+                    flat.append(t)
+            for t in flat:
+                a = own(t)
+                if a is not None:
+                    out.append((fn.name, a))
+            if isinstance(n, ast.Call):
+                f = n.func
+                if isinstance(f, ast.Attribute) and f.attr in MUTATING_CALLS and own(f.value) is not None \
+                        and not (isinstance(f.value, ast.Attribute) and own(f.value) in frame_attrs):
+                    out.append((fn.name, own(f.value)))
+                if isinstance(f, ast.Name) and f.id in ('setattr', 'delattr') and n.args and isinstance(n.args[0], ast.Name) and n.args[0].id == me:
+                    out.append((fn.name, 'setattr'))
+                if isinstance(f, ast.Attribute) and f.attr in ('__setattr__', '__delattr__') and n.args \
+                        and isinstance(n.args[0], ast.Name) and n.args[0].id == me:
+                    out.append((fn.name, 'setattr'))
+                if isinstance(f, ast.Name) and f.id == 'vars' or (isinstance(f, ast.Attribute) and f.attr == '__dict__'):
+                    out.append((fn.name, '__dict__'))
+            if isinstance(n, ast.Attribute) and n.attr == '__dict__' and isinstance(n.value, ast.Name) and n.value.id == me:
+                out.append((fn.name, '__dict__'))
     return sorted(set(out))
 
 
@@ -559,21 +721,23 @@ def frame_info() -> dict:
     methods = {m.name: m for m in _touching_methods(frame)}
     if 'load' not in methods:
         raise TranslateError('Frame.load not found')
-    load_t, _, _ = _table(methods['load'], None)
+    load_t, _, load_r = _table(methods['load'], None)
     load_inl = {k: v for k, v in load_t.items()}
     tables = {'load': load_t}
+    rtables = {'load': load_r}
     unloaded = {}
     for name, fn in methods.items():
         if name == 'load':
             continue
-        t, u, _ = _table(fn, load_inl)
+        t, u, r = _table(fn, load_inl, load_r)
         tables[name] = t
+        rtables[name] = r
         unloaded[name] = u
     vm = {n.name: n for n in vtf.body if isinstance(n, ast.FunctionDef)}
     for need in ('compute_mipmaps', 'save'):
         if need not in vm:
             raise TranslateError(f'VTF.{need} not found')
-    return {'tables': tables, 'unloaded_reads': unloaded, 'external': _external_stores(tree),
+    return {'tables': tables, 'raise_tables': rtables, 'unloaded_reads': unloaded, 'external': _external_stores(tree), 'vtf_self_stores': _vtf_self_stores(vtf),
             'compute': _compute_mipmaps(vm['compute_mipmaps']), 'save': _save_frames(vm['save'])}
 
 
@@ -598,11 +762,19 @@ def translate_frame() -> tuple[str, dict]:
     L.append('Definition gen_eff_others : list (string * efftable) := [')
     L.append(';\n'.join(f'  ("{n}", {_table_coq(t[n])})' for n in others))
     L.append('].')
+    L.append('(* the exits by exception of every method of Frame that touches _data / _fileinfo: per abstract pre-state the outcomes reached at an explicit')
+    L.append('   raise, an assert, an import or a call that can raise (self.load() contributes the exits of load); meaning: Fmt/VtfFrameRaise.v *)')
+    L.append('Definition gen_raise_tables : list (string * efftable) := [')
+    L.append(';\n'.join(f'  ("{n}", {_table_coq(rt)})' for n, rt in info['raise_tables'].items()))
+    L.append('].')
     L.append('(* methods that read the pixels of a frame passed as a parameter before calling its load() *)')
     L.append('Definition gen_unloaded_reads : list string := [' + '; '.join(f'"{n}"' for n, u in info['unloaded_reads'].items() if u) + '].')
     L.append('(* stores to the slots outside class Frame: (function, slot, kind) *)')
     L.append('Definition gen_external_stores : list (string * string * string) := ['
              + '; '.join(f'("{f}", "{s}", "{k}")' for f, s, k in info['external']) + '].')
+    L.append('(* places where a method of VTF other than __init__ changes an attribute of the object itself: (method, attribute) *)')
+    L.append('Definition gen_vtf_self_stores : list (string * string) := ['
+             + '; '.join(f'("{f}", "{a}")' for f, a in info['vtf_self_stores']) + '].')
     cm, sv = info['compute'], info['save']
     L.append(f'(* VTF.compute_mipmaps, vtf.py:{cm["line"]}; VTF.save, vtf.py:{sv["line"]} *)')
     L.append('Definition gen_chaincfg : chaincfg := {|')
@@ -611,7 +783,8 @@ def translate_frame() -> tuple[str, dict]:
     L.append(f'  sv_computes_first := {b(sv["computes_first"])}; sv_steps := [{"; ".join(sv["steps"])}] |}}.')
     L.append('')
     side = {'tables': {n: {f'{int(k[0])}{int(k[1])}': v for k, v in tb.items()} for n, tb in t.items()},
-            'unloaded_reads': info['unloaded_reads'], 'external': info['external'], 'compute': cm, 'save': sv}
+            'raise_tables': {n: {f'{int(k[0])}{int(k[1])}': v for k, v in tb.items()} for n, tb in info['raise_tables'].items()},
+            'unloaded_reads': info['unloaded_reads'], 'external': info['external'], 'vtf_self_stores': info['vtf_self_stores'], 'compute': cm, 'save': sv}
     return '\n'.join(L), side
 
 
